@@ -45,12 +45,17 @@ def make_fit_file(ctx, rng, d, n_rec, with_fluxes, n_models=None, many=False, eq
         theta = np.ones(nb)
     data = os.path.join(d, 'data.txt')
     with open(data, 'w') as f:
+        flux_eq, xy_eq = 10 ** rng.uniform(-1, 2, nb), (rng.uniform(0, 360), rng.uniform(-90, 90))
         for i in range(n_rec):
             valid = [1] * nb
             flux = 10 ** rng.uniform(-1, 2, nb)
-            sname = ('src_%03d' % i) if equal_sizes else 'src_%d_%s' % (i, 'x' * int(rng.integers(0, 12)))     # fixed-width names: records of equal size
-            f.write(gen.source_line(sname, valid, flux, flux * 0.1,
-                                    rng.uniform(0, 360), rng.uniform(-90, 90)) + '\n')
+            sname = 'src_%d_%s' % (i, 'x' * int(rng.integers(0, 12)))
+            xy = (rng.uniform(0, 360), rng.uniform(-90, 90))
+            if equal_sizes:
+                # the same photometry listed under fixed-width names: records of exactly the same size (the size of a pickled
+                # record otherwise depends on the byte values of its numbers)
+                sname, flux, xy = 'src_%03d' % i, flux_eq, xy_eq
+            f.write(gen.source_line(sname, valid, flux, flux * 0.1, xy[0], xy[1]) + '\n')
     out = os.path.join(d, 'fit.out')
     sel = [('N', int(rng.integers(1, n_models + 1))), ('A', 0), ('N', 1)][int(rng.integers(3))] if not many else ('N', 2)
     if n_models >= 40:
@@ -60,6 +65,28 @@ def make_fit_file(ctx, rng, d, n_rec, with_fluxes, n_models=None, many=False, eq
               output_convolved=with_fluxes)
     fit(**{k: v for k, v in kw.items() if k != 'data'}, data=data)
     return out, kw
+
+
+
+import builtins as _builtins
+import io as _io
+_REAL_OPEN = _builtins.open
+
+
+def _install_open(shim):
+    """the writer may reach its file through the builtin open, io.open or a module-level name: all of them get the shim"""
+    import sedfitter.fit_info as fi
+    _builtins.open = shim
+    _io.open = shim
+    fi.open = shim
+
+
+def _remove_open():
+    import sedfitter.fit_info as fi
+    _builtins.open = _REAL_OPEN
+    _io.open = _REAL_OPEN
+    if 'open' in fi.__dict__:
+        del fi.open
 
 
 WRITE_ENDS = []
@@ -115,19 +142,20 @@ def observed_record_ends(fn, *a, **k):
     del WRITE_ENDS[:]
     COUNT.update(active=True, bytes=0)
 
-    def counting_open(p, mode='r', *aa, **kk):
-        f = open(p, mode, *aa, **kk)
+    def counting_open(file, mode='r', *aa, **kk):
+        p = file
+        f = _REAL_OPEN(file, mode, *aa, **kk)
         if ('w' in mode or 'a' in mode or '+' in mode) and str(p).endswith('fit.out'):
             COUNT['bytes'] = 0
             COUNT['marks'] = []
             return _CountingHandle(f)
         return f
 
-    fi.open = counting_open
+    _install_open(counting_open)
     try:
         res = fn(*a, **k)
     finally:
-        del fi.open
+        _remove_open()
         COUNT['active'] = False
     ends = list(WRITE_ENDS)
     del WRITE_ENDS[:]
@@ -209,7 +237,7 @@ def run(ctx):
                'the end offset of every record is observed at the writing boundary (position of the output handle after each FitInfoFile.write), so nothing is assumed about the on-disk layout', 'a clean end after fewer records than were complete is an exact prefix and is accepted')
     ctx.require_events('truncated-read', 'outcome:exception', 'outcome:clean-end', 'enospc-run', 'enospc:prefix-on-disk', 'FitInfoFile.write:post')
     ctx.require_regimes('with-fluxes', 'without-fluxes', 'records=1', 'records>=3', 'cut:before-first-record-complete', 'cut:in-later-record', 'cut:on-boundary',
-                        'records:large', 'records:thousands-of-fits', 'records:equal-size', 'enospc:over-an-existing-longer-file', 'enospc:over-an-earlier-run-of-the-same-job')
+                        'records:large', 'records:thousands-of-fits', 'records:equal-size', 'enospc:over-an-existing-longer-file', 'enospc:over-another-longer-file', 'enospc:over-an-earlier-run-of-the-same-job')
     n_files = 8 if ctx.quick else 64
     prev_blob = None
     for ifile in range(n_files):
@@ -229,7 +257,7 @@ def run(ctx):
             eq = ifile % 8 in (2, 3, 7)
             (path, kw), rec_ends = observed_record_ends(make_fit_file, ctx, frng, d, n_rec, with_fluxes, n_models=nmod, many=False, equal_sizes=eq)
         except Exception as exc:
-            ctx.violation('fit-raised', 'fit() raised while producing the file: %r' % (exc,), {'n_rec': n_rec})
+            ctx.raised(exc, 'fit-raised', 'fit() raised while producing the file: %r' % (exc,), {'n_rec': n_rec})
             continue
         write_marks = [m_ for m_ in COUNT.get('marks', []) if m_ is not None][:2000]
         full = read_all(path)
@@ -237,7 +265,7 @@ def run(ctx):
         if len(full) != n_rec:
             ctx.violation('complete-file:records', 'the complete file does not read back one record per source', {'n_rec': n_rec, 'read': len(full)})
             continue
-        if len(rec_ends) == n_rec and n_rec >= 2 and all(e is not None for e in rec_ends) and len(set(np.diff([rec_ends[0]] + rec_ends[1:]))) == 1:
+        if len(rec_ends) == n_rec and n_rec >= 3 and all(e is not None for e in rec_ends) and len(set(np.diff(rec_ends))) == 1:
             ctx.regime('records:equal-size')
         if len(rec_ends) != n_rec or any(e is None for e in rec_ends) or rec_ends != sorted(rec_ends) or rec_ends[-1] != size:
             ctx.inconclusive('write-side observation failed: record ends %r for %d records, file size %d' % (rec_ends, n_rec, size))
@@ -281,17 +309,22 @@ def run(ctx):
         infos_full = list(fin_)
         fin_.close()
         ref_pad = b'\0' * size
-        for N in range(ctx.shard % stride, size, stride * ctx.nshards if ctx.nshards <= stride else stride):
+        n_points = 12 if ctx.quick else 60
+        for kpt in range(n_points + 1):
+            if not ctx.mine(kpt + ifile):
+                continue
+            N = min(size - 1, kpt * stride + int(frng.integers(0, max(1, stride))))
             out2 = os.path.join(d, 'enospc_%d.out' % N)
 
             seen = {'proxies': 0, 'writes': 0}
             # every third run: the output name already holds an older, longer result file and the records are written
             # through the writer class directly (fit() itself asks before deleting an existing output)
-            stale = prev_blob is not None and (N // stride) % 3 == 1
+            stale = prev_blob is not None and kpt % 3 == 1
             if stale:
-                if (N // stride) % 2:
+                if (kpt // 3) % 2:
                     with open(out2, 'wb') as fo_:
                         fo_.write(prev_blob + prev_blob + ref_pad)
+                    ctx.regime('enospc:over-another-longer-file')
                 else:
                     # ... an earlier run of the same job with other numbers: records of the same size at the same places
                     fo_ = fi.FitInfoFile(out2, 'w')
@@ -326,11 +359,12 @@ def run(ctx):
                 def __getattr__(self, k):
                     return getattr(self.real, k)
 
-            def failing_open(p, mode='r', *a, **k):
-                f = open(p, mode, *a, **k)
-                return Proxy(f) if (('w' in mode or 'a' in mode or '+' in mode) and os.path.abspath(p) == os.path.abspath(out2)) else f
+            def failing_open(file, mode='r', *a, **k):
+                p = file
+                f = _REAL_OPEN(file, mode, *a, **k)
+                return Proxy(f) if (('w' in mode or 'a' in mode or '+' in mode) and isinstance(p, (str, os.PathLike)) and os.path.abspath(p) == os.path.abspath(out2)) else f
 
-            fi.open = failing_open
+            _install_open(failing_open)
             from sedfitter import fit
             try:
                 kw2 = dict(kw, output=out2)
@@ -348,7 +382,7 @@ def run(ctx):
                 except Exception:          # any error reported to the caller counts
                     raised = True
             finally:
-                del fi.open
+                _remove_open()
                 COUNT['active'] = False
             if stale and any(e is None for e in WRITE_ENDS):
                 ctx.inconclusive('write-side observation failed in the overwrite run (no record end positions)')
@@ -388,7 +422,7 @@ def run(ctx):
             got, exc = read_truncated(out2) if os.path.exists(out2) else ([], None)
             judge(ctx, got, exc, full, n_complete, dict(wit0, N=N, on_disk=len(blob), over_existing_file=stale, exception=repr(exc)[:120]),
                   'enospc' if not stale else 'enospc-over-existing')
-            ctx.case(('enospc', ifile, N), nontrivial=len(blob) > rec_ends[0] // 2)
+            ctx.case(('enospc', ifile, kpt, N), nontrivial=len(blob) > rec_ends[0] // 2)
             if os.path.exists(out2):
                 os.remove(out2)
         prev_blob = open(path, 'rb').read()
